@@ -19,10 +19,14 @@ import c03
 import numpy as np
 
 
+def mod_keys(obj):
+  return c03.KEYS['B' if type(obj).__name__ == 'B' else 'A']
+
+
 def nav_real(nnx, obj, path):
   for slot in path:
     if isinstance(obj, nnx.Module):
-      obj = getattr(obj, ('a', 'b')[slot - 1])
+      obj = getattr(obj, mod_keys(obj)[slot - 1])
     elif isinstance(obj, c03.NT):
       obj = obj[slot - 1]
     elif isinstance(obj, dict):
@@ -40,7 +44,7 @@ def make_fn(nnx, mods, vts, script, ret=None):
     for op in script:
       obj = nav_real(nnx, args[op['arg'] - 1], op['path'])
       o = op['o']
-      key = ('a', 'b')[op['slot'] - 1] if op['slot'] else None
+      key = mod_keys(obj)[op['slot'] - 1] if op['slot'] else None
       if o == 'setval':
         obj.value = obj.value + 1
       elif o == 'setstatic':
@@ -87,7 +91,7 @@ def canon_model_multi(heap, roots):
         return ('ref', idx[v])
       idx[v] = len(idx)
       i = idx[v]
-      return (k, i, tuple((K[k][s], rec(o['s'][s])) for s in range(2) if o['s'][s] != 0))
+      return (k, i, tuple((K[k][s], rec(o['s'][s])) for s in sorted(range(2), key=lambda s: K[k][s]) if o['s'][s] != 0))
     if k in ('D', 'DI'):
       return ('D', tuple((K[k][s], rec(o['s'][s])) for s in range(2) if o['s'][s] != 0))
     if k == 'NT':
@@ -117,7 +121,7 @@ def canon_real_multi(roots, nnx, mods, vts):
         return ('ref', idx_shared[id(x)])
       idx_shared[id(x)] = len(idx_shared)
       i = idx_shared[id(x)]
-      attrs = {k: v for k, v in vars(x).items() if not k.startswith('_')}
+      attrs = {k: v for k, v in vars(x).items() if not k.startswith('_object__')}      # `_b` is an ordinary (private) attribute
       return (rev_m.get(type(x), type(x).__name__), i, tuple((k, rec(attrs[k])) for k in sorted(attrs)))
     if isinstance(x, c03.NT):
       return ('NT', (('b', rec(x.b)), ('w', rec(x.w))))
@@ -154,6 +158,16 @@ def identity_walk(nnx, heap, model_id, real, seen, pairs):
 
 
 def replay(chk, beh, idx, nnx, mods, vts):
+  if idx % 3 != 2:
+    return _replay(chk, beh, idx, nnx, mods, vts)
+  c03.KEYS['A'] = c03.KEYS['B'] = ('a', '_b')      # rendering: the second attribute of the modules is a private (underscore) name
+  try:
+    return _replay(chk, beh, idx, nnx, mods, vts)
+  finally:
+    c03.KEYS['A'] = c03.KEYS['B'] = ('a', 'b')
+
+
+def _replay(chk, beh, idx, nnx, mods, vts):
   import jax
   import jax.numpy as jnp
   heap0 = beh['heap']
@@ -306,24 +320,43 @@ def main(chk):
   chk.cov['behaviours_replayed'] = n
   chk.assumptions.append('the 4-step split/merge protocol itself is not modelled; the specification gives the reference (eager) semantics, '
                          'cross-checked at run time by a real eager run on a clone')
-  # ---- Variables with value hooks: what the function reads (hooked) and what the transform carries (raw) must not be confused
+  # ---- Variables with value hooks: what the function reads (hooked) and what the transform carries (raw) must not be confused,
+  # and the write-back of the transform must not run a set hook a second time
+  import jax.numpy as jnp
+
   def hooked_history(wrap):
     class H(nnx.Module):
       def __init__(self):
         self.w = nnx.Param(jnp.asarray(3, jnp.int32), on_get_value=lambda var, v: v + 100)
         self.acc = nnx.Variable(jnp.asarray(0, jnp.int32))
+        self.s = nnx.Variable(jnp.asarray(1, jnp.int32), on_set_value=lambda var, v: v * 2)      # not idempotent
 
     def step(m):
       m.acc.value = m.acc.value + m.w.value      # reads through the hook: 103
+      m.s.value = m.s.value + 1                  # stored: (s + 1) * 2
       return m.w.value
     m = H()
     f = wrap(step, m)
     outs = [int(f()) for _ in range(3)]
-    return outs, int(m.acc.value), int(m.w.raw_value)
-  import jax.numpy as jnp
+    return outs, int(m.acc.value), int(m.w.raw_value), int(m.s.raw_value)
   ref = hooked_history(lambda fn, m: (lambda: fn(m)))
+
+  def w_while(fn, m):
+    def body(c):
+      fn(c[0])
+      return (c[0], c[1] + 1)
+    return lambda: (nnx.while_loop(lambda c: c[1] < 1, body, (m, jnp.asarray(0))), m.w.value)[1]
+
+  def w_fori(fn, m):
+    def body(i, mm):
+      fn(mm)
+      return mm
+    return lambda: (nnx.fori_loop(0, 1, body, m), m.w.value)[1]
   for name, wrap in (('jit', lambda fn, m: (lambda: nnx.jit(fn)(m))), ('remat', lambda fn, m: (lambda: nnx.remat(fn)(m))),
-                     ('cached_partial', lambda fn, m: nnx.cached_partial(nnx.jit(fn), m))):
+                     ('cached_partial', lambda fn, m: nnx.cached_partial(nnx.jit(fn), m)),
+                     ('cond', lambda fn, m: (lambda: nnx.cond(jnp.asarray(True), fn, lambda mm: mm.w.value, m))),
+                     ('switch', lambda fn, m: (lambda: nnx.switch(jnp.asarray(1), [lambda mm: mm.w.value, fn], m))),
+                     ('while_loop', w_while), ('fori_loop', w_fori)):
     chk.count(('C04:hooked', name))
     try:
       got = hooked_history(wrap)
@@ -331,8 +364,69 @@ def main(chk):
       chk.violation(f'C04:hooked-variable|{name}|', f'raised {type(e).__name__}: {str(e)[:160]}', {})
       continue
     if got != ref:
-      chk.violation(f'C04:hooked-variable|{name}|', f'a Variable with an on_get_value hook under nnx.{name}: (returned values, accumulator, raw value) '
-                                                    f'{got}, eager {ref}', {})
+      chk.violation(f'C04:hooked-variable|{name}|', f'Variables with on_get_value / on_set_value hooks under nnx.{name}: (returned values, '
+                                                    f'accumulator, raw value, raw value of the set-hooked one) {got}, eager {ref}', {})
+  # ---- two threads inside the same transform at the same time, each on its own objects (the update / split / merge context
+  # stacks are per-thread): the interleaving "A traces; B enters and traces; A finishes; B finishes" is forced with events
+  import threading
+
+  def overlapped(name, wrap):
+    class C(nnx.Module):
+      def __init__(self, start):
+        self.count = nnx.Variable(jnp.asarray(start, jnp.int32))
+
+    ev = {k: threading.Event() for k in ('a_in', 'b_in', 'a_done')}
+    state = {'sync': True}
+
+    def step(m, x):
+      if state['sync']:
+        me = threading.current_thread().name
+        if me == 'A':
+          ev['a_in'].set()
+          ev['b_in'].wait(20)
+        elif me == 'B':
+          ev['b_in'].set()
+          ev['a_done'].wait(20)
+      m.count.value = m.count.value + x
+      m.extra = nnx.Variable(x + 1)
+      return m.count.value * 2
+    f = wrap(step)
+    a, b = C(0), C(100)
+    b.mode = 'b'      # a static attribute: B's call has its own trace
+    res, err = {}, {}
+
+    def run_a():
+      try:
+        res['A'] = int(f(a, jnp.asarray(3, jnp.int32)))
+      except BaseException as e:      # noqa: BLE001
+        err['A'] = e
+      finally:
+        ev['a_in'].set()
+        ev['a_done'].set()
+
+    def run_b():
+      try:
+        ev['a_in'].wait(20)
+        res['B'] = int(f(b, jnp.asarray(3, jnp.int32)))
+      except BaseException as e:      # noqa: BLE001
+        err['B'] = e
+      finally:
+        ev['b_in'].set()
+    ts = [threading.Thread(target=run_a, name='A'), threading.Thread(target=run_b, name='B')]
+    [t.start() for t in ts]
+    [t.join(60) for t in ts]
+    state['sync'] = False
+    if err:
+      return f'raised {err!r}'[:300]
+    got = (res.get('A'), res.get('B'), int(a.count.value), int(b.count.value), hasattr(a, 'extra') and int(a.extra.value),
+           hasattr(b, 'extra') and int(b.extra.value))
+    want = (6, 206, 3, 103, 4, 4)
+    return None if got == want else f'(result A, result B, A.count, B.count, A.extra, B.extra) = {got}, eager {want}'
+  for name, wrap in (('jit', nnx.jit), ('remat', nnx.remat)):
+    chk.count(('C04:threads', name))
+    bad = overlapped(name, wrap)
+    if bad:
+      chk.violation(f'C04:two-threads|{name}|', f'two threads overlapping inside nnx.{name}, each with its own objects: {bad}', {})
   chk.finish(rule=('object graphs (<= 4 objects + created ones, sharing / cycles / containers), 1-2 arguments (the second may alias into the '
                    'first), edit scripts of <= 3 path-addressed ops, transform in {jit, remat, cond, switch, while_loop, fori_loop, '
                    'cached_partial, eager}, trip counts 1-2, 2 consecutive calls of the same transformed function; from tlc -simulate'),
